@@ -1369,8 +1369,8 @@ class LogixDriver(CIPDriver):
                 if request.type_ != "multi":
                     results[request.request_id] = Tag(request.tag, None, None, str(err))
                 else:
-                    for tag in request.tags:
-                        results[tag["request_id"]] = Tag(tag["tag"], None, None, str(err))
+                    for req in request.requests:
+                        results[req.request_id] = Tag(req.tag, None, None, str(err))
             else:
                 if request.type_ != "multi":
                     if response:
